@@ -163,9 +163,9 @@ def replay_time_notes(note_dicts, opt_name, hittable):
                 command="list(time_notes(notes, timing_data, option)) with the warps above")
 
 
-from props.engine_common import Lookup, EngineVsStatement
+from props.engine_common import Lookup, EngineVsStatement, CoalesceWarps
 
-UNITS = [TimeNotes(), Lookup("hittable")]
+UNITS = [TimeNotes(), Lookup("hittable"), CoalesceWarps()]
 BOUNDED = [EngineVsStatement("hittable", k) for k in range(EngineVsStatement.PARTS)]
 
 
